@@ -10,6 +10,7 @@ RULE = ('DFAs (all 2x2, random <= 6 states) x all words <= 3 + random words: dfa
         'random PDAs without pushing epsilon moves x words <= 3: pda_simulate_word; random CNF grammars x all non-empty words <= 4 x {leftmost, rightmost, any}: cfg_derive_word; '
         'under 4 (quick) / 16 (thorough) PYTHONHASHSEED values with a 3 s limit per call (a hang is a violation). Relation: the verified witness checker accepts the returned run / derivation, nothing is returned for rejected words, '
         'and a witness is returned for every accepted word. Non-trivial = at least one accepted word whose witness has >= 3 entries; distinct by object text.')
+RULE += ' Added after the seeded rounds: multi-character stack symbols (spelling_pda), pushing epsilon loops under a small closure limit (a hang on a word the sound acceptance test accepts is a violation), cfg_derive_word compared with its model (informational).'
 CODES = {9: 'generated object invalid (harness)', 8: 'internal: the model of nfa_simulate_word returns no valid run (machinery)', 1: 'PDA closure truncated: undecided',
          10: 'dfa_simulate_word raised', 11: 'dfa_simulate_word trace differs from the proved model', 12: 'dfa_simulate_word trace is not a run',
          20: 'nfa_simulate_word raised or did not terminate', 21: 'nfa_simulate_word returned something that is not an accepting run', 22: 'nfa_simulate_word returned a run for a rejected word', 23: 'nfa_simulate_word returned nothing for an accepted word',
